@@ -10,7 +10,13 @@
     validation are reported as errors and produce no output.
 
     What is proved here, about the Gallina transcription [generate] of cmd/gql-client-gen/main.go
-    (repaired tree) and the model [decode_op] of the encoding/json behaviour the output relies on:
+    (repaired tree), the model [load_schema] of how LoadSchema rebuilds field types from the
+    introspection JSON ([generate_cli] = LoadSchema, then Generate) and the model [decode_op] of the
+    encoding/json behaviour the output relies on:
+    - [schema_loadable S]: no field type has more than seven list / non-null wrappers (the depth of
+      the introspection query's TypeRef fragment) - a third known finding: with an eighth wrapper
+      LoadSchema fails ([C20_refuted_type_ref_depth]); up to seven, every wrapper chain is rebuilt
+      exactly, whatever the order of its wrappers ([C20_load_type_roundtrip]);
     - [env S d] is the envelope above as a boolean predicate (ClientGenSpec.v); a response key may
       be selected several times in one selection set (field merging): "distinct ignoring letter
       case" constrains different keys only;
@@ -24,11 +30,12 @@
       [decl_names_ok] / [idents_ok] / no malformed tags are exactly what [excl_decl_clash] = false
       grants, they are not derived).  It is not a theorem about the Go type checker; the real
       go/types run is observed by the correspondence check on every case.
-      OPEN (stated, evaluated on every case of every run, NOT proved): a condition on the names of
-      schema and document alone suffices for the second exclusion,
-        forall S d, decl_safe S d = true -> excl_decl_clash S d = false
-      ([decl_safe] in ClientGenSpec.v); missing: an invariant on the generator's struct counter
-      (sel<T1><n1> = sel<T2><n2> only if a composite type name ends in a digit).
+      The second exclusion is implied by a condition on the NAMES of schema and document alone
+      ([decl_safe], ClientGenSpec.v: enum types, enum constants, <Op>Data, <F>Fragment pairwise
+      distinct usable identifiers that do not begin with "sel" and are not "json"; no composite
+      type name ends in a digit; type-condition and fragment names do not begin with "__"):
+      [C20_decl_safe_sufficient].  The main statements below carry [decl_safe] as hypothesis, which
+      can be checked without running the generator.
     - "decoding succeeds with every selected leaf": for every response tree [w] that conforms to
       the operation (any concrete object types, nulls at nullable positions, any list lengths),
       [decode_op] of the JSON of [w] returns a value, for all sufficiently large fuel, whose leaves
@@ -36,38 +43,65 @@
 From Coq Require Import List NArith Bool String.
 Open Scope string_scope.
 From ApiFu Require Import Base.Sexp Gen.GoTypes Gen.ClientGenModel Gen.DecodeModel Gen.ClientGenSpec
-     Gen.ClientGenMain Gen.ClientGenWitness Gen.ClientGenClauses.
+     Gen.ClientGenMain Gen.ClientGenWitness Gen.ClientGenDeclSafe Gen.LoadSchemaModel Gen.LoadSchemaProofs
+     Gen.ClientGenClauses.
 Import ListNotations.
 
 (** the generator accepts every operation of the envelope and its output is well formed *)
 Theorem C20_gen_wf_partial : forall S d,
-  env S d = true -> excl_member_clash S d = false -> excl_decl_clash S d = false ->
-  exists p, generate no_quirks S (doc_valid S d) d = GOk p /\ wf_program p = true.
-Proof. exact gen_accepts_wf. Qed.
+  env S d = true -> schema_loadable S = true -> excl_member_clash S d = false -> decl_safe S d = true ->
+  exists p, generate_cli no_quirks S (doc_valid S d) d = GOk p /\ wf_program p = true.
+Proof. exact cli_accepts_wf. Qed.
+
+(** LoadSchema rebuilds a field type from what the introspection query returns for it: exactly,
+    for every chain of at most seven wrappers in any order ([T]! is not [T!]) ... *)
+Theorem C20_load_type_roundtrip : forall S t,
+  type_loadable S t = true -> get_type S (query_ref typeref_depth (introspect_ref t)) = Some t.
+Proof. exact load_type_roundtrip. Qed.
+
+Theorem C20_load_schema_roundtrip : forall S, schema_loadable S = true -> load_schema S = Some S.
+Proof. exact load_schema_roundtrip. Qed.
+
+(** ... and not at all beyond (known finding type-ref-deeper-than-introspection-query): the
+    command-line generator then reports an error for every document *)
+Theorem C20_refuted_type_ref_depth : forall Q S valid d n ifs fs f t,
+  In (DObj n ifs fs) (s_types S) -> In (f, t) fs -> (typeref_depth < wrappers t)%nat ->
+  generate_cli Q S valid d = GError.
+Proof. exact generate_cli_too_deep. Qed.
+
+(** the names-only condition excludes the known finding decl-name-clash (struct-counter invariant:
+    sel<T1><n1> = sel<T2><n2> only if n1 = n2, when no composite type name ends in a digit) *)
+Theorem C20_decl_safe_sufficient : forall S d,
+  schema_ok S = true -> decl_safe S d = true -> excl_decl_clash S d = false.
+Proof. exact decl_safe_excl. Qed.
 
 (** the same, clause by clause (definitions and the Go rule each clause stands for: ClientGenClauses.v):
     distinct struct members and well-targeted UnmarshalJSON statements, declared references,
     forwarders only to types with the method, identifiers *)
 Theorem C20_gen_wf_clauses_partial : forall S d,
-  env S d = true -> excl_member_clash S d = false -> excl_decl_clash S d = false ->
-  exists p, generate no_quirks S (doc_valid S d) d = GOk p /\
+  env S d = true -> schema_loadable S = true -> excl_member_clash S d = false -> decl_safe S d = true ->
+  exists p, generate_cli no_quirks S (doc_valid S d) d = GOk p /\
             cl_struct_members p /\ cl_references p /\ cl_method_forwarders p /\ cl_identifiers p.
-Proof. exact gen_wf_clauses. Qed.
+Proof. exact cli_wf_clauses. Qed.
 
 (** decoding any response shaped by a named operation yields exactly the selected leaves *)
 Theorem C20_gen_decodes : forall S d,
-  env S d = true -> excl_member_clash S d = false -> excl_decl_clash S d = false ->
+  env S d = true -> schema_loadable S = true -> excl_member_clash S d = false -> decl_safe S d = true ->
   forall p o opname w,
-    generate no_quirks S (doc_valid S d) d = GOk p ->
+    generate_cli no_quirks S (doc_valid S d) d = GOk p ->
     In o (d_ops d) -> op_name o = Some opname -> conforms S o w = true ->
     exists n v, (forall fuel, (n <= fuel)%nat -> decode_op p fuel opname (json_of w) = DOk v) /\
                 (forall pl, In pl (leaves v) <-> In pl (expected S o w)).
-Proof. exact gen_decodes. Qed.
+Proof. exact cli_decodes. Qed.
 
 (** operations that fail validation are rejected and nothing is generated (whatever the flags) *)
 Theorem C20_gen_invalid_no_output : forall Q S d,
   doc_valid S d = false -> generate Q S (doc_valid S d) d = GRejected.
 Proof. exact gen_invalid_no_output. Qed.
+
+Theorem C20_cli_invalid_no_output : forall Q S d p,
+  doc_valid S d = false -> generate_cli Q S (doc_valid S d) d <> GOk p.
+Proof. exact cli_invalid_no_output. Qed.
 
 (** the defects repaired in the repository, reproduced on the model of the code before each
     repair ([quirks]): each operation is in the envelope and violates the statements above *)
@@ -114,6 +148,11 @@ Theorem C20_refuted_decl_name_clash :
 Proof. exact refuted_decl_name_clash. Qed.
 
 Print Assumptions C20_gen_wf_partial.
+Print Assumptions C20_decl_safe_sufficient.
+Print Assumptions C20_load_type_roundtrip.
+Print Assumptions C20_load_schema_roundtrip.
+Print Assumptions C20_refuted_type_ref_depth.
+Print Assumptions C20_cli_invalid_no_output.
 Print Assumptions C20_gen_wf_clauses_partial.
 Print Assumptions C20_gen_decodes.
 Print Assumptions C20_gen_invalid_no_output.
